@@ -35,7 +35,7 @@ FLOORS = {"quick": {"evaluations": 5000, "served": 300, "unlock_sent": 500, "ref
                     "supports_contract_evaluations": 20000},
           "thorough": {"evaluations": 300000, "served": 30000, "unlock_sent": 30000,
                        "refused": 200000, "live_runs": 60, "version_grid_cells": 300,
-                       "supports_contract_evaluations": 500000}}
+                       "supports_contract_evaluations": 150000}}
 EXHAUSTIVE = {"quick": False, "thorough": True}
 
 MGR = (5, 4, 1)
